@@ -22,8 +22,8 @@ pub fn spec() -> Spec {
         case_cap_s: |t| t.pick(300, 3600),
         rule: "one case per connected complete symbol: every labeled symbol (all renumberings) of dimension 2 size <= 3 and dimension 3 size <= 2, one representative per isomorphism class of D-sets x all branching vectors over {1,2,3} for dimension 2 size 4 (thorough: 5) and dimension 3 size 3 (thorough). Per case: oriented_cover; covers(s, k) for every k up to the sheet bound; finite_universal_cover and subgroup_cover for every set of <= 2 words of length <= 2 when the group (reference Todd-Coxeter on the textbook presentation) has at most the order bound. Oracle: each returned symbol is complete, valid, connected and admits a chamber map onto the base (searched from every base image, not assumed) that commutes with all operations, preserves all degrees and has equal fibres; oriented cover is oriented with 1 or 2 sheets; universal cover has |G| sheets; number of covers per sheet number = number of conjugacy classes of subgroups of that index (homomorphism-counting oracle on the textbook presentation); covers pairwise inequivalent as coverings. Non-trivial = the symbol has a proper cover within the bounds.",
         assumptions: &["class counts are computed only while (n!)^generators <= 2*10^6 for the textbook presentation; skipped counts are reported", "pairwise inequivalence uses the projection d -> (d-1) mod size + 1 documented by derived::cover, and only after verifying that it is a covering map for both covers"],
-        bounds: |t| json!({"dim2_labeled_max_size": 3, "dim2_class_rep_size": t.pick(4, 5), "dim3_labeled_max_size": 2, "dim3_class_rep_size": t.pick(0, 3), "V": [1,2,3], "sheet_bound": t.pick(3, 4),
-            "group_order_bound": t.pick(120, 1152), "subgroup_word_len": 2, "subgroup_max_words": 2}),
+        bounds: |t| json!({"dim2_labeled_max_size": 3, "dim2_class_rep_size": t.pick(5, 6), "dim3_labeled_max_size": 2, "dim3_class_rep_size": 3, "V": [1,2,3], "sheet_bound": t.pick(4, 5),
+            "group_order_bound": t.pick(384, 1152), "subgroup_word_len": 2, "subgroup_max_words": 2}),
     }
 }
 
@@ -71,7 +71,7 @@ pub fn check_symbol(ctx: &mut Ctx, family: &str, s: &RS) {
     ctx.announce(&case);
     let weight = (s.n * 10 + s.dim()) as u64;
     let tier = ctx.tier;
-    let kmax = tier.pick(3, 4);
+    let kmax = tier.pick(4, 5);
     let cs = match ctx.guard(|| to_partial_dsym(s)) {
         Ok(x) => x,
         Err(m) => {
@@ -179,7 +179,7 @@ pub fn check_symbol(ctx: &mut Ctx, family: &str, s: &RS) {
     }
     ctx.count(any_proper);
     // --- universal and subgroup covers for finite groups
-    let order_cap = tier.pick(120, 1152);
+    let order_cap = tier.pick(384, 1152);
     if let Some(reg) = Tc::run(tb.ngens, &tb.rels, &[], 40 * order_cap + 2000) {
         let order = reg.len();
         if order <= order_cap {
@@ -247,10 +247,9 @@ fn run(ctx: &mut Ctx) {
             });
         }
     }
-    let mut fams: Vec<(usize, usize)> = vec![(2, 4)];
+    let mut fams: Vec<(usize, usize)> = vec![(2, 4), (2, 5), (3, 3)];
     if tier.is_thorough() {
-        fams.push((2, 5));
-        fams.push((3, 3));
+        fams.push((2, 6));
     }
     for (dim, n) in fams {
         for ops in class_representatives(dim, n) {
